@@ -445,6 +445,7 @@ def mon_c16(sc, controller, outcome):
     conn_keys = {(c["dst"], c["deid"], c["dattr"], c["src"], c["seid"]) for c in sc["connects"]}
     async_pairs = {(c["src"], c["dst"]) for c in sc["connects"] if c.get("async")}   # A -> B: B may write to A
     pending = {}        # (A, eid, attr, src sim, src eid) -> value set since A's last begin
+    sent_at = {}        # ... -> tiered time of the agent's step during which it was set
     inflight = {i: None for i in range(n)}
     for idx, e in enumerate(controller.full_trace):
         if e[0] == "set_data":
@@ -458,6 +459,7 @@ def mon_c16(sc, controller, outcome):
                         continue        # must be refused: checked on the outcome
                     for a, v in attrs.items():
                         pending[(A, int(deid), ATTRS.index(a), int(ssid[1:]), int(seid))] = v
+                        sent_at[(A, int(deid), ATTRS.index(a), int(ssid[1:]), int(seid))] = inflight.get(B)
         elif e[0] == "begin":
             A, t, inputs = sid_i(e[1]), tuple(e[2]), e[3]
             got = {}
@@ -473,6 +475,10 @@ def mon_c16(sc, controller, outcome):
                 if got.get(k, "<absent>") != v:
                     vio.append({"law": "set_data value must be in the target's next step", "target": A, "t": t, "key": k[1:], "sent": v,
                                 "received": got.get(k, "<absent>"), "event": idx})
+                elif sent_at.get(k) is not None and (t[0] < sent_at[k][0] or (t[0] == sent_at[k][0] and not any(x["group"] for x in sc["sims"]))):
+                    # (inside groups a later sub-step of the same time counts as "after")
+                    vio.append({"law": "data set during the agent's step at t is delivered in the target's first step AFTER t", "target": A, "t": t,
+                                "agent_step": sent_at[k], "key": k[1:], "event": idx})
                 del pending[k]
             # values of earlier set_data calls must not show up again
             for k, v in got.items():
@@ -522,7 +528,7 @@ def mon_c17(sc, controller, outcome):
     for req in sc.get("extra_async", []):
         if req["kind"] != "set_event":
             continue
-        sets = [(idx, e) for idx, e in enumerate(controller.full_trace) if e[0] == "set_event" and sid_i(e[1]) == req["sim"]]
+        sets = [(idx, e) for idx, e in enumerate(controller.full_trace) if e[0] == "set_event" and sid_i(e[1]) == req["sim"] and e[2] == req["time"]]
         if not sets:
             continue
         idx0 = sets[0][0]
@@ -539,6 +545,11 @@ def mon_c17(sc, controller, outcome):
                 vio.append({"law": "an event at or after until is ignored with a warning", "request": req, "stepped": bool(later), "warned": ignored})
         elif outcome == "finished" and not later:
             vio.append({"law": "set_event(t) for a future t < until causes a step at t", "request": req, "outcome": outcome})
+        elif len(set(tuple(e[2]) for e in later)) != len(later) and all(
+                [b for b in controller.full_trace[:i] if b[0] == "begin" and sid_i(b[1]) == req["sim"]][-1][2][0] < t for i, _ in sets):
+            # (every request for t was made during a step before t: an event for the running step's own time is not "future")
+            vio.append({"law": "set_event(t), however often it is requested, causes ONE step at t", "request": req,
+                        "steps_at_t": [list(e[2]) for e in later]})
     # (an AssertionError raised by the min-delay closures before the first step is not a real-time matter: finding D7, judged under C05/C06)
     if outcome.startswith("failed AssertionError") and not outcome.startswith("failed AssertionError closure") and not past_event:
         vio.append({"law": "a real-time run with compliant simulators completes without internal error", "outcome": outcome})
